@@ -39,6 +39,10 @@ inductive Rel where
   | drain
   /-- not before `Start` has returned -/
   | never
+  /-- the handler has taken over its connection (`http.Hijacker`: a WebSocket, any upgrade); the exchange
+      goes on and is finished only after `Start` has returned. `Server.Shutdown` does not wait for such
+      connections — and nothing may cut them off. -/
+  | hijack
   deriving DecidableEq, Repr
 
 inductive Trig where
